@@ -299,7 +299,7 @@ def run(ctx):
                 run_pair(ctx, t, path)
             ctx.case((tuple(routes), path))
         ctx.sample("regression-seed", {"routes": REGRESSION[6][0], "path": REGRESSION[6][1]})
-    ntables = ctx.scale(5000, 120_000)
+    ntables = ctx.scale(5000, 500_000)
     for i in range(ntables):
         routes = make_table(rng)
         table = make(ctx, routes)
